@@ -487,11 +487,16 @@ class XCopyUnit(_ListUnit):
             for k in all_keys:
                 if k not in own:
                     out.append({"set": s, "how": list(how), "refusal": "segment-key", "code": code, "key": k})
+        # every segment descriptor type code 00h..FFh the class has no layout for, described with the keys of each
+        # layout it does have: refused (no code borrows the layout of another one)
+        for code in sorted(self.seg):
+            out.append({"set": s, "how": list(how), "refusal": "segment-code-without-layout", "keys_of": code})
         return out
 
     def case_id(self, case):
         if "refusal" in case:
-            return "set=%s,refusal=%s%s" % (case["set"], case["refusal"], ",type=%02X,key=%s" % (case["code"], case["key"]) if "code" in case else "")
+            return "set=%s,refusal=%s%s%s" % (case["set"], case["refusal"], ",type=%02X,key=%s" % (case["code"], case["key"]) if "code" in case else "",
+                                              ",keys-of-type-%02X" % case["keys_of"] if "keys_of" in case else "")
         return "set=%s,targets=%s,segments=%s,inline=%d" % (
             case["set"], "+".join("%02X:%d:%s" % tuple(t) for t in case["targets"]) or "none",
             "+".join("%02X:%d" % tuple(s) for s in case["segments"]) or "none", case["inline"])
@@ -620,11 +625,35 @@ class XCopyUnit(_ListUnit):
             s = {k: 0 for k in self.seg[case["code"]].fields}
             s["descriptor_type_code"] = case["code"]
             s[case["key"]] = 1
+        elif what == "segment-code-without-layout":
+            accepted = []
+            for code in range(256):
+                if code in self.seg:
+                    continue
+                s = {k: 0 for k in self.seg[case["keys_of"]].fields}
+                s["descriptor_type_code"] = code
+                try:
+                    if self.lid4:
+                        X.call(K, op, 0, 0, 0, 0, 0, 0, [dict(good_t)], [s], bytearray())
+                    else:
+                        X.call(K, op, 0, 0, 0, 0, [dict(good_t)], [s], bytearray())
+                    accepted.append(code)
+                except V.EngineSignal:
+                    raise
+                except (ValueError, NotImplementedError):
+                    pass
+                except Exception as ex:
+                    accepted.append((code, type(ex).__name__))
+            return accepted
         if self.lid4:
             return X.call(K, op, 0, 0, 0, 0, 0, 0, [t], [s], bytearray())
         return X.call(K, op, 0, 0, 0, 0, [t], [s], bytearray())
 
     def ensures(self, case, a, out, X):
+        if case.get("refusal") == "segment-code-without-layout":
+            acc = out.value if out.kind == "return" else ["the sweep itself raised %s" % out.describe()[:40]]
+            yield "C17", "every-type-code-without-a-layout-is-refused%s" % (" (accepted: %s)" % ", ".join("%02Xh" % c if isinstance(c, int) else str(c) for c in acc[:6]) if acc else ""), not acc
+            return
         if "refusal" in case:
             yield "C17", "refused-with-ValueError (%s)" % (out.describe()[:60]), out.kind == "raise" and isinstance(out.exc, ValueError)
             return
